@@ -512,6 +512,13 @@ class Nest:
                 raise PathEnd("nest")
             for (_o, var2, _i, _c) in self.loops:
                 eng.oblige(st, tag + ".counter_untouched." + var2, eng.local(st, var2) == self.K[var2])
+            # vacuity guard (the path ends here, so the driver's own guard does not see it)
+            sol = z3.Solver()
+            sol.set("timeout", 3000)
+            for h in st.pc:
+                sol.add(h)
+            if sol.check() == z3.unsat:
+                eng.oblige(st, tag + ".cover.path_hypotheses_satisfiable", z3.BoolVal(False), "cover")
             self.after(eng, st, self)
             raise PathEnd("nest")
         return handler
@@ -649,6 +656,72 @@ P.assume("LINE search: dt_last_done != 0 (a step has been done).  For a pair wit
          "test false); definedness checks are switched off in that task only")
 
 
+def line_min_lemma(v, eng, st, t, rm, d1, dv, dt, q, lam):
+    """rmin2_ab = min over the step of the quadratic distance, via a scalar lemma.
+
+    With A = |d1|^2, B = d1.dv, C = |dv|^2 the squared distance at the fraction lam of the step is
+    A - 2 lam dt B + lam^2 dt^2 C.  Linking obligations (polynomial identities on the real terms) tie the locals
+    r1, r2, r3, t_closest of the code to A, B, C; the scalar lemma is the code's own expression for rmin2_ab with those
+    locals replaced by scalar unknowns (a universally quantified lemma instantiated at the real terms)."""
+    from engine.csym import Obligation
+    A = sum(x * x for x in d1)
+    B = sum(x * y for x, y in zip(d1, dv))
+    C = sum(y * y for y in dv)
+    r1, r2, tc = eng.local(st, "r1"), eng.local(st, "r2"), eng.local(st, "t_closest")
+    try:
+        r3 = eng.local(st, "r3")
+    except KeyError:
+        r3 = None
+    eng.oblige(st, t + ".body.min.link.r1", r1 == A)
+    eng.oblige(st, t + ".body.min.link.r2", r2 == A - 2 * dt * B + dt * dt * C)
+    eng.oblige(st, t + ".body.min.link.t_closest", tc * C == B)
+    eng.oblige(st, t + ".body.min.link.C_positive", C > 0)
+    eng.oblige(st, t + ".body.min.link.q", q(lam) == A - 2 * lam * dt * B + lam * lam * dt * dt * C)
+    inrange = z3.And(tc / dt >= 0, tc / dt <= 1)
+    taken = r3 is not None
+    if taken:
+        eng.oblige(st, t + ".body.min.link.r3", r3 == A - 2 * tc * B + tc * tc * C)
+        eng.oblige(st, t + ".body.min.link.vertex_in_range", inrange)
+    else:
+        eng.oblige(st, t + ".body.min.link.vertex_out_of_range", z3.Not(inrange))
+    a1, a2, a3, tcA, dtA, AA, BB, CC = z3.Reals("lm_r1 lm_r2 lm_r3 lm_tc lm_dt lm_A lm_B lm_C")
+    sub = [(r1, a1), (r2, a2), (tc, tcA), (dt, dtA)] + ([(r3, a3)] if taken else [])
+    rmA = z3.substitute(rm, *sub)
+    allowed = {x.get_id() for x in (a1, a2, a3, tcA, dtA)}
+
+    def scalar_only(e):
+        stack = [e]
+        while stack:
+            x = stack.pop()
+            if z3.is_const(x) and x.decl().kind() == z3.Z3_OP_UNINTERPRETED:
+                if x.get_id() not in allowed:
+                    return False
+            elif z3.is_app(x) and x.decl().kind() == z3.Z3_OP_UNINTERPRETED:
+                return False
+            elif z3.is_app(x) and x.decl().kind() in (z3.Z3_OP_SELECT, z3.Z3_OP_STORE):
+                return False
+            stack.extend(x.children())
+        return True
+    eng.oblige(st, t + ".body.min.link.abstraction_is_scalar", z3.BoolVal(scalar_only(rmA)))
+    inrA = z3.And(tcA / dtA >= 0, tcA / dtA <= 1)
+    hy = [a1 == AA, a2 == AA - 2 * dtA * BB + dtA * dtA * CC, tcA * CC == BB, CC > 0, dtA != 0,
+          inrA if taken else z3.Not(inrA)]
+    if taken:
+        hy.append(a3 == AA - 2 * tcA * BB + tcA * tcA * CC)
+
+    def qA(l):
+        return AA - 2 * l * dtA * BB + l * l * dtA * dtA * CC
+    nm = eng.prefix + t
+    ob = Obligation(nm + ".body.min.lower_bound", hy + [0 <= lam, lam <= 1], rmA <= qA(lam), "lemma")
+    ob.meta["order"] = ("z3", "cvc5")
+    eng.obligations.append(ob)
+    ls = tcA / dtA
+    ob = Obligation(nm + ".body.min.attained", hy,
+                    z3.Or(rmA == qA(z3.RealVal(0)), rmA == qA(z3.RealVal(1)), z3.And(0 <= ls, ls <= 1, rmA == qA(ls))), "lemma")
+    ob.meta["order"] = ("z3", "cvc5")
+    eng.obligations.append(ob)
+
+
 def line_after(v, s, dv0):
     base = None
 
@@ -674,13 +747,11 @@ def line_after(v, s, dv0):
             return sum((d1[a] - lam * dt * dv[a]) ** 2 for a in range(3))
         rm = eng.local(st, "rmin2_ab")
         lam = z3.Real("lam")
-        eng.oblige(st, t + ".body.min.lower_bound", z3.Implies(z3.And(0 <= lam, lam <= 1), rm <= q(lam))).meta["order"] = ("z3", "cvc5")
         if dv0:
+            eng.oblige(st, t + ".body.min.lower_bound", z3.Implies(z3.And(0 <= lam, lam <= 1), rm <= q(lam))).meta["order"] = ("z3", "cvc5")
             eng.oblige(st, t + ".body.min.attained", rm == q(z3.RealVal(0))).meta["order"] = ("z3", "cvc5")
         else:
-            ls = sum(a * b for a, b in zip(d1, dv)) / (sum(b * b for b in dv) * dt)
-            eng.oblige(st, t + ".body.min.attained",
-                       z3.Or(rm == q(z3.RealVal(0)), rm == q(z3.RealVal(1)), z3.And(0 <= ls, ls <= 1, rm == q(ls)))).meta["order"] = ("z3", "cvc5")
+            line_min_lemma(v, eng, st, t, rm, d1, dv, dt, q, lam)
         eng.oblige(st, t + ".body.pairs_once", I < J)
         generic(eng, st, nest)
     return after
@@ -718,3 +789,305 @@ for gtag, ghosts in (("box", 0), ("ghosts", 1)):
             else:
                 v.assume(sum(d * d for d in dvs) != 0)
             v.call("reb_collision_search", s.rp)
+
+
+# ============================================================================ resolve loop: index fix-ups
+P.assume("resolve loop: stated at a cut (arbitrary head state of the loop `for i<collisions_N`): the current entry i and an "
+         "arbitrary pending entry j>i are each either (-1,-1) or name two different live particles (0 <= p < N); "
+         "N_var == 0; integrator not MERCURIUS/TRACE; free_particle_ap not modelled")
+P.assume("particle identity = ghost label carried in the `hash` member (labels of live particles pairwise different); the "
+         "user resolve callback neither adds, removes nor reorders particles (it requests removals through its return value)")
+P.assume("reb_simulation_remove_particle is used through a summary contract written from its documented behaviour "
+         "(docs/removingparticles.md, rebound.h): for a valid index and N_var == 0 it returns 1 and (keep_sorted) closes the "
+         "gap preserving the order / (unsorted) moves the last particle into the gap / (tree present, unsorted) only flags the "
+         "particle (y = NaN) and leaves N; the proof of that contract against particle.c belongs to C14")
+P.assume("fix-up loops: each iteration touches only collisions[j] (proved: frame of an arbitrary iteration), so the effect of "
+         "a fix-up loop on one arbitrary pending entry is the effect of its iteration j; the other entries are havocked")
+
+ID = ("hash",)
+
+
+def fixup_task(v, keep_sorted, outcome, tree, mode):
+    s = mk_sim(v)
+    r = s.r
+    E = v.eng
+    E.merge_ifs = False
+    r.N_var = z3.IntVal(0)
+    r.collision = v.enumc("REB_COLLISION_NONE")
+    r.collision_resolve_keep_sorted = z3.IntVal(keep_sorted)
+    r.tree_root = Opaque("ptr:tree_root", tag=z3.BoolVal(True)) if tree else NULL
+    r.collision_resolve = FuncRef("user_resolve")
+    v.assume(z3.Int("g_reb_sigint") == 0)
+    s.NC = v.int("N_allocated_collisions")
+    r.N_allocated_collisions = s.NC
+    s.coll = v.array("struct reb_collision", s.NC, "C")
+    r.collisions = s.coll.ptr
+    parts_obj = s.parts.obj
+    a_, b_ = z3.Ints("a_id b_id")
+    ID0 = s.old[ID]
+    v.assume(z3.ForAll([a_, b_], z3.Implies(z3.And(0 <= a_, a_ < b_, b_ < s.N), z3.Select(ID0, a_) != z3.Select(ID0, b_))))
+    I, J = z3.Int("i_it"), z3.Int("j_entry")
+    C0 = {f: s.coll.array(*f) for f in CFIELDS}
+    cp1, cp2 = z3.Select(C0[("p1",)], I), z3.Select(C0[("p2",)], I)
+    q1, q2 = z3.Select(C0[("p1",)], J), z3.Select(C0[("p2",)], J)
+
+    def entry_inv(a, b, N):
+        return z3.Or(z3.And(a == -1, b == -1), z3.And(0 <= a, a < N, 0 <= b, b < N, a != b))
+    st_ = {"removed": [], "calls": 0}
+
+    # -- callee summaries ------------------------------------------------------
+    def user_resolve(eng, st, args, n):
+        return z3.IntVal(outcome)
+    v.contract("user_resolve", user_resolve)
+
+    def ids_now(st):
+        return E._leaf_array(st.mem.get(parts_obj.id), ID)
+
+    def remove_particle(eng, st, args, n):
+        rp, index, ks = args
+        index = as_int(index)
+        rs = st.mem.get(rp.obj)
+        N = eng._lazy_field(rs, "N", st)
+        t = v.task.name + ".remove%d" % st_["calls"]
+        # which identity is this call meant to remove?  first call <-> lowest set bit of the outcome
+        want = [cp1, cp2][[b for b in (0, 1) if outcome & (1 << b)][st_["calls"]]]
+        st_["calls"] += 1
+        idn = ids_now(st)
+        eng.oblige(st, t + ".callsite.index_valid", z3.And(0 <= index, index < N))
+        eng.oblige(st, t + ".callsite.removes_the_intended_identity", z3.Select(idn, index) == z3.Select(ID0, want))
+        eng.oblige(st, t + ".callsite.keep_sorted_flag", as_int(ks) == keep_sorted)
+        arr = st.mem.get(parts_obj.id)
+        k = z3.Int("k_rm")
+        if tree:
+            eng.write(st, Ptr(parts_obj.id, (index, "y")), z3.Real("NAN"))
+        elif keep_sorted:
+            for leaf in list(arr.leaf_types):
+                old = eng._leaf_array(arr, leaf)
+                arr.leaves[leaf] = z3.Lambda([k], z3.If(k < index, z3.Select(old, k), z3.Select(old, k + 1)))
+            eng.write(st, Ptr(rp.obj, ("N",)), N - 1)
+        else:
+            for leaf in list(arr.leaf_types):
+                old = eng._leaf_array(arr, leaf)
+                arr.leaves[leaf] = z3.Store(old, index, z3.Select(old, N - 1))
+            eng.write(st, Ptr(rp.obj, ("N",)), N - 1)
+        return z3.IntVal(1)
+    v.contract("reb_simulation_remove_particle", remove_particle)
+
+    # -- inner fix-up loops: one arbitrary pending entry ------------------------------
+    def fix_loop(ordinal):
+        tag = v.task.name + ".fixloop%d" % ordinal
+
+        def handler(eng, st, n, cond, inc, body):
+            cN = eng.local(st, "collisions_N")
+            eng.oblige(st, tag + ".header.init", eng.local(st, "j") == eng.local(st, "i") + 1)
+            K = J if mode == "entry" else z3.Int("j_any%d" % ordinal)
+            eng.write(st, eng.local_ptr(st, "j"), K)
+            st.assume(K >= I + 1)
+            c = as_bool(eng.rvalue(st, cond))
+            eng.oblige(st, tag + ".header.cond", c == (K < cN))
+            s2 = st.clone()
+            eng.rvalue(s2, inc)
+            eng.oblige(s2, tag + ".header.inc", eng.local(s2, "j") == K + 1)
+            arr = st.mem.get(s.coll.obj.id)
+            before = {f: eng._leaf_array(arr, f) for f in CFIELDS}
+            idb, Nb = ids_now(st), eng._lazy_field(st.mem.get(s.rp.obj), "N", st)
+            if mode == "entry":
+                st.assume(c)
+                fl = eng.exec_stmt(st, body)
+                eng.oblige(st, tag + ".iteration.normal_flow", z3.BoolVal(fl.kind in (Flow.NORMAL, Flow.CONTINUE)))
+                eng.oblige(st, tag + ".iteration.counter_untouched", z3.And(eng.local(st, "j") == K, eng.local(st, "i") == I))
+                arr = st.mem.get(s.coll.obj.id)
+                kk = z3.Int("k_other")
+                for f in CFIELDS:
+                    eng.oblige(st, tag + ".iteration.touches_only_entry_j." + lname(f),
+                               z3.Implies(kk != K, z3.Select(eng._leaf_array(arr, f), kk) == z3.Select(before[f], kk)))
+                eng.oblige(st, tag + ".iteration.particles_untouched",
+                           z3.And(ids_now(st) == idb, eng._lazy_field(st.mem.get(s.rp.obj), "N", st) == Nb))
+            # the other entries: arbitrary afterwards
+            arr = st.mem.get(s.coll.obj.id)
+            for f in CFIELDS:
+                new = z3.Const("C_after%d_%s!%d" % (ordinal, lname(f), next(eng.fresh_n)), before[f].sort())
+                if mode == "entry":
+                    st.assume(z3.Select(new, K) == z3.Select(eng._leaf_array(arr, f), K))
+                arr.leaves[f] = new
+            return Flow(Flow.NORMAL) if False else __import__("engine.csym", fromlist=["NORMAL"]).NORMAL
+        v.loop("reb_collision_search", ordinal, invariant=handler, mode="custom")
+    for o in (23, 24, 25, 26):
+        fix_loop(o)
+
+    # -- the resolve loop itself: arbitrary iteration i ---------------------------------
+    def enter(eng, st, nest):
+        s.cN = z3.Int("collisions_N_head")
+        eng.oblige(st, v.task.name + ".cut.init", eng.local(st, "collisions_N") == 0)
+        eng.write(st, eng.local_ptr(st, "collisions_N"), s.cN)
+        st.assume(z3.And(0 <= s.cN, s.cN <= s.NC))
+        st.assume(entry_inv(cp1, cp2, s.N))
+        if mode == "entry":
+            st.assume(z3.And(I < J, J < s.cN))
+            st.assume(entry_inv(q1, q2, s.N))
+
+    def after(eng, st, nest):
+        t = v.task.name
+        rs = st.mem.get(s.rp.obj)
+        N1 = eng._lazy_field(rs, "N", st)
+        id1 = ids_now(st)
+        current_valid = z3.And(cp1 != -1, cp2 != -1)
+        nrem = 0 if tree else bin(outcome).count("1")
+        eng.oblige(st, t + ".N_decreases_by_removals", N1 == z3.If(current_valid, s.N - nrem, s.N))
+        eng.oblige(st, t + ".removal_calls", z3.BoolVal(st_["calls"] == (bin(outcome).count("1") if implied(v, current_valid) else 0)))
+        a, b = z3.Ints("a_post b_post")
+        eng.oblige(st, t + ".labels_stay_distinct",
+                   z3.Implies(z3.And(0 <= a, a < b, b < N1), z3.Select(id1, a) != z3.Select(id1, b)))
+        if mode != "entry":
+            return
+        arr = st.mem.get(s.coll.obj.id)
+        q1n, q2n = z3.Select(eng._leaf_array(arr, ("p1",)), J), z3.Select(eng._leaf_array(arr, ("p2",)), J)
+        n1, n2 = z3.Select(ID0, q1), z3.Select(ID0, q2)
+        removed = []
+        if outcome & 1:
+            removed.append(z3.Select(ID0, cp1))
+        if outcome & 2:
+            removed.append(z3.Select(ID0, cp2))
+        pre_valid = z3.And(q1 != -1, q2 != -1)
+        hit = z3.And(current_valid, z3.Or(*[z3.Or(n1 == x, n2 == x) for x in removed])) if removed else z3.BoolVal(False)
+        eng.oblige(st, t + ".entry.invalid_stays_invalid", z3.Implies(z3.Not(pre_valid), z3.And(q1n == -1, q2n == -1)))
+        eng.oblige(st, t + ".entry.involving_removed_is_invalidated", z3.Implies(z3.And(pre_valid, hit), z3.And(q1n == -1, q2n == -1)))
+        keep = z3.And(pre_valid, z3.Not(hit))
+        eng.oblige(st, t + ".entry.kept.in_range", z3.Implies(keep, z3.And(0 <= q1n, q1n < N1, 0 <= q2n, q2n < N1)))
+        eng.oblige(st, t + ".entry.kept.same_identity.p1", z3.Implies(keep, z3.Select(id1, q1n) == n1))
+        eng.oblige(st, t + ".entry.kept.same_identity.p2", z3.Implies(keep, z3.Select(id1, q2n) == n2))
+        eng.oblige(st, t + ".entry.kept.distinct", z3.Implies(keep, q1n != q2n))
+        if tree:
+            # flagged, not moved: the entry is literally unchanged unless invalidated
+            eng.oblige(st, t + ".entry.kept.unchanged", z3.Implies(keep, z3.And(q1n == q1, q2n == q2)))
+    Nest(v, "reb_collision_search", [(22, "i", z3.IntVal(0), lambda nest, K: K < s.cN)], after, enter=enter)
+    # the randomisation loop is not entered at the cut (collisions_N == 0 before the cut); see resolve.randomize
+    v.call("reb_collision_search", s.rp)
+
+
+for ks in (0, 1):
+    for outcome in (0, 1, 2, 3):
+        for mode in ("entry", "current"):
+            @P.task("resolve.fixup.%s.outcome%d.%s" % ("sorted" if ks else "unsorted", outcome, mode), fn="reb_collision_search")
+            def _(v, ks=ks, outcome=outcome, mode=mode):
+                """resolve loop, no tree: after the removals requested by the outcome, the (fixed-up) current record is used
+                to remove exactly the intended identities, and an arbitrary pending entry is invalidated iff it involves a
+                removed identity and otherwise names the same two identities, both alive."""
+                fixup_task(v, ks, outcome, False, mode)
+for outcome in (1, 2, 3):
+    @P.task("resolve.fixup.tree.outcome%d.entry" % outcome, fn="reb_collision_search")
+    def _(v, outcome=outcome):
+        """resolve loop with a tree (removal deferred: particle flagged, nothing moves)."""
+        fixup_task(v, 0, outcome, True, "entry")
+
+
+@P.task("resolve.randomize", fn="reb_collision_search")
+def _(v):
+    """randomisation loop: an arbitrary iteration is a transposition of two in-range entries (so the loop permutes the
+    list: no record lost or duplicated)."""
+    s = mk_sim(v)
+    r = s.r
+    r.N_var = z3.IntVal(0)
+    r.collision = v.enumc("REB_COLLISION_NONE")
+    s.NC = v.int("N_allocated_collisions")
+    r.N_allocated_collisions = s.NC
+    s.coll = v.array("struct reb_collision", s.NC, "C")
+    r.collisions = s.coll.ptr
+    C0 = {f: s.coll.array(*f) for f in CFIELDS}
+
+    def rand_r(eng, st, args, n):
+        x = eng.fresh("rand", z3.IntSort())
+        st.assume(x >= 0)            # rand_r returns a value in [0, RAND_MAX]
+        return x
+    v.contract("rand_r", rand_r)
+
+    def enter(eng, st, nest):
+        s.cN = z3.Int("collisions_N_head")
+        eng.write(st, eng.local_ptr(st, "collisions_N"), s.cN)
+        st.assume(z3.And(0 <= s.cN, s.cN <= s.NC))
+
+    def after(eng, st, nest):
+        t = v.task.name
+        I = nest.K["i"]
+        nw = eng.local(st, "new")
+        eng.oblige(st, t + ".partner_in_range", z3.And(0 <= nw, nw < s.cN))
+        arr = st.mem.get(s.coll.obj.id)
+        k = z3.Int("k_other")
+        for f in CFIELDS:
+            c1 = eng._leaf_array(arr, f)
+            eng.oblige(st, t + ".swap." + lname(f), z3.And(z3.Select(c1, I) == z3.Select(C0[f], nw), z3.Select(c1, nw) == z3.Select(C0[f], I)))
+            eng.oblige(st, t + ".others." + lname(f), z3.Implies(z3.And(k != I, k != nw), z3.Select(c1, k) == z3.Select(C0[f], k)))
+        eng.oblige(st, t + ".count_unchanged", eng.local(st, "collisions_N") == s.cN)
+        n = cur(s)
+        eng.oblige(st, t + ".particles_untouched", z3.And(*[n[f] == s.old[f] for f in s.leaves]))
+    Nest(v, "reb_collision_search", [(21, "i", z3.IntVal(0), lambda nest, K: K < s.cN)], after, enter=enter)
+    v.call("reb_collision_search", s.rp)
+
+
+# ============================================================================ tree search
+@P.task("merge.tree_radius_bounds", fn="reb_collision_resolve_merge")
+def _(v):
+    """The tree search prunes with r->max_radius1 (collision.c:583: rp = p1_r + max_radius1 + 0.866 w), which is only
+    sound while max_radius0 >= every radius and max_radius1 >= every radius but the largest (reb_simulation_add
+    maintains this).  A merge changes a radius, so it has to re-establish the bound for the survivor."""
+    s = mk_sim(v)
+    c, p1, p2 = mk_collision(v, s, "p1<p2")
+    r = s.r
+    r.track_energy_offset = 0
+    merge_pre(v, s, p1, p2)
+    o = s.old
+    R0, R1 = r.max_radius0, r.max_radius1
+    k = v.int("k")
+    a_, b_ = z3.Ints("a_r b_r")
+    rad = o[("r",)]
+    v.assume(z3.ForAll([a_], z3.Implies(z3.And(0 <= a_, a_ < s.N), z3.And(0 <= z3.Select(rad, a_), z3.Select(rad, a_) <= R0))))
+    v.assume(z3.ForAll([a_, b_], z3.Implies(z3.And(0 <= a_, a_ < b_, b_ < s.N),
+                                            z3.Or(z3.Select(rad, a_) <= R1, z3.Select(rad, b_) <= R1))))
+    v.assume(0 <= k, k < s.N, k != p1, k != p2)
+    v.call("reb_collision_resolve_merge", s.rp, c)
+    n = cur(s)
+    rnew = sel(n, "r", p1)
+    v.prove("max_radius0", rnew <= r.max_radius0, order=("z3", "cvc5"))
+    v.prove("max_radius1", z3.Or(rnew <= r.max_radius1, sel(n, "r", k) <= r.max_radius1), order=("z3", "cvc5"))
+
+
+@P.task("search.tree.leaf", fn="reb_tree_get_nearest_neighbour_in_cell")
+def _(v):
+    """leaf case of the tree descent: the leaf's particle is recorded against p1 iff it is another particle,
+    overlapping (|gb - x2|^2 <= (p1_r + r2)^2) and approaching; list growth memory-safe."""
+    s = search_setup(v, "REB_COLLISION_TREE", 0, False)
+    v.eng.merge_ifs = False
+    cell, cellp = v.struct_obj("struct reb_treecell", "cell")
+    J = v.int("pt")
+    cell.pt = J
+    v.assume(0 <= J, J < s.N)
+    cN = v.int("collisions_N")
+    cnc, cnp = v.cell("int", "collisions_N", cN)
+    v.assume(0 <= cN, cN <= s.NC)
+    gb, gbun = v.struct("struct reb_vec6d", "gb"), v.struct("struct reb_vec6d", "gbunmod")
+    ri, p1r = v.int("ri"), v.real("p1_r")
+    nr2c, nr2p = v.cell("double", "nearest_r2", v.real("nearest_r2"))
+    cn, cnptr = v.struct_obj("struct reb_collision", "collision_nearest")
+    I = v.int("i")
+    cn.p1 = I
+    C0 = {f: s.coll.array(*f) for f in CFIELDS}
+    v.call("reb_tree_get_nearest_neighbour_in_cell", s.rp, cnp, gb, gbun, ri, p1r, nr2p, cnptr, cellp)
+    o = s.old
+    d = [gb[f] - sel(o, f, J) for f in "xyz"]
+    dv = [gb["v" + f] - sel(o, "v" + f, J) for f in "xyz"]
+    rs = p1r + sel(o, "r", J)
+    hit = z3.And(J != I, sum(a * a for a in d) <= rs * rs, z3.Not(sum(a * b for a, b in zip(d, dv)) > 0))
+    cN1 = cnc.value if False else v.st.mem.get(cnc.id).value
+    v.prove("hit_is_appended", z3.Implies(hit, cN1 == cN + 1))
+    v.prove("only_hits_are_appended", z3.Implies(z3.Not(hit), cN1 == cN))
+    arr1, C1 = coll_arrays(v, v.st, s.r._s)
+    v.prove("record.p1", z3.Implies(hit, z3.Select(C1[("p1",)], cN) == I))
+    v.prove("record.p2", z3.Implies(hit, z3.Select(C1[("p2",)], cN) == J))
+    for f in XV:
+        v.prove("record.gb." + f, z3.Implies(hit, z3.Select(C1[("gb", f)], cN) == gbun[f]))
+    k = v.int("k_entry")
+    for f in CFIELDS:
+        v.prove("earlier_entries_kept." + lname(f), z3.Implies(z3.And(0 <= k, k < cN), z3.Select(C1[f], k) == z3.Select(C0[f], k)))
+    v.prove("cut.preserved", z3.And(0 <= cN1, cN1 <= s.r.N_allocated_collisions, s.r.N_allocated_collisions == arr1.length))
+    n = cur(s)
+    v.prove("particles_untouched", z3.And(*[n[f] == s.old[f] for f in s.leaves]))
